@@ -6,6 +6,7 @@ is the one of `C03/Model.lean`; invariants and their preservation are in `C04/Le
 -/
 import LimnoriaModel.C04.Lemmas
 import LimnoriaModel.C04.Glob
+import LimnoriaModel.C04.PluginLemmas
 namespace C04
 open Py C03
 
@@ -239,5 +240,98 @@ theorem checkCapability_cache_free {st : St} (hr : Reachable st) (h cap : Str) (
   anchored at both ends, one trailing LF tolerated);
 * `glob_case : glob (toLower p) (toLower h) = glob p h` — matching is IRC-case-insensitive;
 * `rfc1459_table_classes` — the obligation on the extracted case table both rest on. -/
+
+/-! ## the User plugin: a login is always backed by the account's password
+`C04/Plugin.lean` models `register`, `identify`, `unidentify`, `hostmask add`, `hostmask remove`,
+`set secure`, `whoami` with their converters and guards; `pwOk` is the password test
+(`IrcUser.checkPassword`), a parameter.  The ghost log records every `identify` whose password
+test succeeded. -/
+
+/-- the states the bot reaches through the User plugin from a database without accounts -/
+def PReachable (pwOk : Str → Str → Bool) (pst : PSt) : Prop :=
+  ∃ (db : Db) (cs : List Cmd), db.users = [] ∧ pst = prun pwOk { st := { db := db } } cs
+
+theorem preachable_pinv {pwOk : Str → Str → Bool} {pst : PSt} (hr : PReachable pwOk pst) :
+    PInv pwOk pst := by
+  obtain ⟨db, cs, hdb, e⟩ := hr
+  rw [e]; exact prun_pinv (pinit pwOk db hdb) cs
+
+/-- **No dictionary operation but `identify` creates a login** (`step_auth`, Lemmas) and **the
+plugin runs `identify` only for `identify <name> <password>` from that exact sender after the
+password test** (`guard_identify`).  Hence: in every reachable state, every login entry `(t, h)`
+of every account was created by an `identify` command sent from exactly `h` at time `t` with a
+password that the account's password test accepted. -/
+theorem auth_backed_by_password {pwOk : Str → Str → Bool} {pst : PSt} (hr : PReachable pwOk pst) :
+    ∀ u ∈ pst.st.db.users, ∀ e ∈ u.auth,
+      ∃ l ∈ pst.log, l.uid = u.id ∧ l.t = e.1 ∧ l.host = e.2 ∧
+        ∃ stored, pst.pws.lookup u.id = some stored ∧ pwOk stored l.pw = true := by
+  have hp := preachable_pinv hr
+  intro u hu e he
+  obtain ⟨l, hl, h1, h2, h3⟩ := hp.backed u hu e he
+  obtain ⟨s, hs, hok⟩ := hp.logOK l hl
+  exact ⟨l, hl, h1, h2, h3, s, h1 ▸ hs, hok⟩
+
+/-- **Recognition, complete statement.**  In every state reachable through the User plugin, when
+`getUserId` (caches and all) resolves a user hostmask `s` to an id, that id is a stored account
+and either one of its registered patterns matches `s` (IRC glob and case rules), or the sender
+identified WITH THE ACCOUNT'S PASSWORD from exactly `s`, and that login has not timed out. -/
+theorem recognised_by_mask_or_password {pwOk : Str → Str → Bool} {pst : PSt}
+    (hr : PReachable pwOk pst) (s : Str) (id : Nat) (hs : isUserHostmask s = true)
+    (h : (getUserId pst.st s).2 = .ok id) :
+    ∃ u ∈ pst.st.db.users, u.id = id ∧
+      ((∃ p ∈ u.hostmasks, glob p s = true) ∨
+       (∃ l ∈ pst.log, l.uid = id ∧ l.host = s ∧
+          authLive pst.st.db.timeout pst.st.now (l.t, s) = true ∧
+          ∃ stored, pst.pws.lookup id = some stored ∧ pwOk stored l.pw = true)) := by
+  have hp := preachable_pinv hr
+  have ha := getUserId_agrees hp.inv.recs hp.inv.cache s
+  rw [h] at ha
+  cases hl : pst.st.db.lookup pst.st.now s with
+  | found u =>
+    rw [hl] at ha
+    have hf := lookup_found_host hs hl
+    have hm : u ∈ pst.st.db.users.filter (fun u => u.checkHostmask pst.st.db.timeout pst.st.now s true) := by
+      rw [hf]; simp
+    obtain ⟨h1, h2⟩ := List.mem_filter.1 hm
+    refine ⟨u, h1, ha, ?_⟩
+    rcases matchesUser_of_check hs h2 with hpat | ⟨e, he, hlive, hes⟩
+    · exact Or.inl hpat
+    · right
+      obtain ⟨l, hl', h3, h4, h5, stored, h6, h7⟩ := auth_backed_by_password hr u h1 e he
+      refine ⟨l, hl', h3.trans ha, h5.trans hes, ?_, stored, ha ▸ h6, h7⟩
+      rw [h4, ← hes]; exact hlive
+  | missing => rw [hl] at ha; cases ha
+  | duplicate => rw [hl] at ha; cases ha
+
+/-- a `secure` account only accepts a login from a hostmask one of its masks matches
+(`IrcUser.addAuth`, checked WITHOUT the existing logins) -/
+theorem addAuth_secure (u u1 : User) (t now : Int) (h : Str) (hsec : u.secure = true)
+    (ha : addAuth u t now h = .ok u1) : ∃ p ∈ u.hostmasks, glob p h = true := by
+  unfold addAuth at ha
+  split at ha
+  · rename_i hc
+    simp only [hsec, Bool.not_true, Bool.or_false] at hc
+    unfold checkHostmask at hc
+    simp only [Bool.false_and, Bool.false_eq_true, if_false] at hc
+    unfold User.patMatch at hc
+    cases hf : u.hostmasks.find? (fun p => glob p h) with
+    | none => rw [hf] at hc; cases hc
+    | some p => exact ⟨p, List.mem_of_find?_eq_some hf, by have := List.find?_some hf; simpa using this⟩
+  · cases ha
+
+/-- non-vacuity, and the scenario behind the seeded change C04-m4: with equality as password
+test, `identify alice wrong` from a host that a broad mask of alice matches is refused and
+creates no login; after the mask is removed the sender is a stranger -/
+example :
+    let A : Str := ['n', 'a', '!', 'u', '@', 'h', '.', 'a']
+    let M : Str := ['n', 'm', '!', 'u', '@', 'd', '.', 'i', 's', 'p']
+    let alice : Str := ['a', 'l', 'i', 'c', 'e']
+    let pw : Str := ['p', 'w', '1']
+    let broad : Str := ['*', '!', '*', '@', '*', '.', 'i', 's', 'p']
+    let pst := prun (fun s a => s == a) { st := { db := Db.initial } }
+      [.register A alice pw, .hostAdd A (some alice) broad pw, .identify M alice ['x'],
+       .hostRemove A (some alice) broad pw]
+    (pstep (fun s a => s == a) pst (.whoami M)).2 = .stranger ∧ pst.log = [] := by
+  decide
 
 end C04
